@@ -334,6 +334,230 @@ def check_placeholder_completion(chk, F, rid="R17.9"):
     chk.floor(rid, "placeholder cases", n, 25)
 
 
+# ---- R17.10 Assets as the planner's asset provider; R17.11 a Satisfier as asset provider ----------------------------------
+
+def check_assets_provider(chk, F, rid="R17.10"):
+    import itertools
+    from ..interp import Machine, Adt, PyVec, Panic, some, NONE
+    from ..builtins import deref, PySet
+    from . import c14
+    chk.rule(rid, "Assets as AssetProvider (what a plan is computed from): a key is available for ECDSA / taproot key spend / a "
+                  "given leaf exactly when some Assets entry has the key's master fingerprint, a key source that is the key's "
+                  "path or its direct parent, and the matching signing capability (leaf availability None / Any / Single / "
+                  "Many); the announced Schnorr signature size is 64 or 65 by sighash_default; a preimage is available exactly "
+                  "when its hash is in the set; a lock is met exactly when a maximum is set and implies it (BIP-65 / BIP-68 "
+                  "unit rules); Assets::add / older / after merge as sets with the newer lock winning")
+    AS = "plan::Assets"
+    try:
+        imp = [i for i in F.impls if i["self_adt"] == AS and (i["trait"] or "").endswith("AssetProvider")][0]
+        items = {it["name"]: it["path"] for it in imp["items"]}
+        fdp = [x for x in F.fn("full_derivation_paths", file="descriptor/key.rs", allow_many=True) if "DefiniteDescriptorKey" in x][0]
+        mfp = [x for x in F.fn("master_fingerprint", file="descriptor/key.rs", allow_many=True) if "DefiniteDescriptorKey" in x][0]
+    except (IndexError, KeyError) as e:
+        chk.fail(rid, "anchor", "Assets as AssetProvider / key accessors not found: %s" % e, kind="unanalysable")
+        return
+    chk.saw(*items.values())
+    CS, TCS, TAL = "plan::CanSign", "plan::TaprootCanSign", "plan::TaprootAvailableLeaves"
+    L1, L2 = ("leaf", 1), ("leaf", 2)
+
+    def cansign(ecdsa, key_spend, leaves, dflt):
+        kind, payload = leaves
+        al = Adt(TAL, kind, {} if payload is None else {"0": (PyVec(list(payload)) if kind == "Many" else payload)})
+        return Adt(CS, "CanSign", {"ecdsa": ecdsa, "taproot": Adt(TCS, "TaprootCanSign", {"key_spend": key_spend, "script_spend": al,
+                                                                                         "sighash_default": dflt})})
+
+    def assets(entries, hashes=(), rel=None, abs_=None):
+        f = {"keys": PySet([]), "sha256_preimages": PySet(list(hashes)), "hash256_preimages": PySet(list(hashes)),
+             "ripemd160_preimages": PySet(list(hashes)), "hash160_preimages": PySet(list(hashes)),
+             "absolute_timelock": some(abs_) if abs_ is not None else NONE, "relative_timelock": some(rel) if rel is not None else NONE}
+        a = Adt(AS, "Assets", f)
+        a.fields["keys"] = PyVec([((fp, PyVec(list(path))), cs) for fp, path, cs in entries])
+        return a
+    KEY = Term("thekey")
+    hooks = {fdp: lambda m, a, c: PyVec([PyVec([0, 1])]), mfp: lambda m, a, c: "FP",
+             "bitcoin::bip32::DerivationPath::len": lambda m, a, c: len(deref(a[0]).items),
+             "bitcoin::bip32::DerivationPath::is_empty": lambda m, a, c: len(deref(a[0]).items) == 0}
+    m = Machine(F, strict=True, hooks=hooks)
+    c14.lock_hooks(m)
+    leaves_opts = [("None", None), ("Any", None), ("Single", L1), ("Single", L2), ("Many", [L2, L1]), ("Many", []), ("Many", [L2])]
+
+    def avail(lv, leaf):
+        kind, payload = lv
+        return {"None": False, "Any": True, "Single": payload == leaf, "Many": leaf in (payload or [])}[kind]
+    n = 0
+    try:
+        for fp, path, ecdsa, ks, lv, dflt in itertools.product(("FP", "OTHER"), ([0, 1], [0], [], [0, 1, 2], [1]), (True, False),
+                                                                (True, False), leaves_opts, (True, False)):
+            entry = (fp, path, cansign(ecdsa, ks, lv, dflt))
+            a = assets([entry])
+            match = fp == "FP" and path in ([0, 1], [0])
+            key = "%s|m/%s|ecdsa=%s key_spend=%s leaves=%s default=%s" % (fp, "/".join(map(str, path)), ecdsa, ks, lv[0] + (str(lv[1]) if lv[1] else ""), dflt)
+            n += 1
+            bad = []
+            r = m.call_path(items["provider_lookup_ecdsa_sig"], [a, KEY])
+            if r != (match and ecdsa):
+                bad.append("ECDSA availability %r, expected %r" % (r, match and ecdsa))
+            r = m.call_path(items["provider_lookup_tap_key_spend_sig"], [a, KEY])
+            want = (64 if dflt else 65) if (match and ks) else None
+            got = r.fields["0"] if r.variant == "Some" else None
+            if got != want:
+                bad.append("key-spend signature size %r, expected %r" % (got, want))
+            for leaf in (L1, L2):
+                r = m.call_path(items["provider_lookup_tap_leaf_script_sig"], [a, KEY, leaf])
+                want = (64 if dflt else 65) if (match and avail(lv, leaf)) else None
+                got = r.fields["0"] if r.variant == "Some" else None
+                if got != want:
+                    bad.append("script-spend signature size for %r: %r, expected %r" % (leaf, got, want))
+            chk.obligation(rid, not bad, key, "; ".join(bad[:2]), where="src/plan.rs")
+        # two entries: one matching is enough, whichever comes first
+        a2 = assets([("OTHER", [0, 1], cansign(True, True, ("Any", None), True)), ("FP", [0], cansign(True, False, ("Single", L2), False))])
+        n += 1
+        bad = []
+        if m.call_path(items["provider_lookup_ecdsa_sig"], [a2, KEY]) is not True:
+            bad.append("ECDSA not available although the second entry matches")
+        if m.call_path(items["provider_lookup_tap_key_spend_sig"], [a2, KEY]).variant != "None":
+            bad.append("key spend available although only a foreign entry allows it")
+        r = m.call_path(items["provider_lookup_tap_leaf_script_sig"], [a2, KEY, L2])
+        if not (r.variant == "Some" and r.fields["0"] == 65):
+            bad.append("leaf 2 signature %r, expected Some(65)" % (r,))
+        chk.obligation(rid, not bad, "two-entries", "; ".join(bad), where="src/plan.rs")
+        # preimages
+        for lk in ("provider_lookup_sha256", "provider_lookup_hash256", "provider_lookup_ripemd160", "provider_lookup_hash160"):
+            a3 = assets([], hashes=["H1", "H2"])
+            n += 1
+            good = m.call_path(items[lk], [a3, "H1"]) is True and m.call_path(items[lk], [a3, "H3"]) is False and \
+                m.call_path(items[lk], [assets([]), "H1"]) is False
+            chk.obligation(rid, good, lk, "%s does not answer membership of the hash in the Assets' set" % lk, where="src/plan.rs")
+        # locks
+        TF = 1 << 22
+        for limit in (None, 5, 9, 5 | TF):
+            for s_ in (4, 5, 6, 5 | TF, 4 | TF, 6 | TF):
+                a4 = assets([], rel=limit)
+                n += 1
+                r = m.call_path(items["check_older"], [a4, s_])
+                want = limit is not None and (s_ & TF) == (limit & TF) and (s_ & 0xffff) <= (limit & 0xffff)
+                chk.obligation(rid, r == want, "check_older|max=%r|%d" % (limit, s_), "check_older(%d) with maximum %r is %r, expected %r"
+                               % (s_, limit, r, want), where="src/plan.rs")
+        for limit in (None, 100, 500000100):
+            for s_ in (99, 100, 101, 500000099, 500000100, 500000101):
+                a5 = assets([], abs_=limit)
+                n += 1
+                r = m.call_path(items["check_after"], [a5, s_])
+                want = limit is not None and (s_ < 500000000) == (limit < 500000000) and s_ <= limit
+                chk.obligation(rid, r == want, "check_after|max=%r|%d" % (limit, s_), "check_after(%d) with maximum %r is %r, expected %r"
+                               % (s_, limit, r, want), where="src/plan.rs")
+        # Assets::append (behind Assets::add): sets are united, a lock of the newer Assets wins, otherwise the old one stays
+        app = [q for q in F.fns if q.endswith("plan::Assets::append")]
+        if len(app) == 1:
+            from ..interp import dcopy
+            for (ra, rb), (aa, ab) in itertools.product(((None, None), (5, None), (None, 7), (5, 7)), ((None, None), (100, None), (None, 200), (100, 200))):
+                x = assets([("FP", [0], cansign(True, True, ("Any", None), True))], hashes=["H1"], rel=ra, abs_=aa)
+                y = assets([("OTHER", [1], cansign(False, True, ("None", None), False))], hashes=["H2"], rel=rb, abs_=ab)
+                for f_ in ("sha256_preimages", "hash256_preimages", "ripemd160_preimages", "hash160_preimages"):
+                    x.fields[f_] = PySet(["H1"])
+                    y.fields[f_] = PySet(["H2"])
+                x.fields["keys"] = PySet([])
+                y.fields["keys"] = PySet([])
+                m.call_path(app[0], [x, y])
+                n += 1
+                bad = []
+                wr = rb if rb is not None else ra
+                wa = ab if ab is not None else aa
+                gr = x.fields["relative_timelock"]
+                ga = x.fields["absolute_timelock"]
+                if (gr.fields["0"] if gr.variant == "Some" else None) != wr:
+                    bad.append("relative lock %r, expected %r" % (gr, wr))
+                if (ga.fields["0"] if ga.variant == "Some" else None) != wa:
+                    bad.append("absolute lock %r, expected %r" % (ga, wa))
+                for f_ in ("sha256_preimages", "hash256_preimages", "ripemd160_preimages", "hash160_preimages"):
+                    if sorted(x.fields[f_].items) != ["H1", "H2"]:
+                        bad.append("%s = %r, expected the union" % (f_, x.fields[f_].items))
+                chk.obligation(rid, not bad, "append|rel=%r+%r|abs=%r+%r" % (ra, rb, aa, ab), "; ".join(bad[:2]), where="src/plan.rs")
+        else:
+            chk.fail(rid, "anchor|append", "Assets::append not found", kind="unanalysable")
+    except Unsupported as e:
+        chk.fail(rid, "unanalysable", "unanalysable: %s" % e, where=e.where, kind="unanalysable")
+    except Panic as e:
+        chk.fail(rid, "panic", "panic: %s" % e, where="src/plan.rs")
+    chk.floor(rid, "cases", n, 500)
+
+
+def check_satisfier_as_provider(chk, F, rid="R17.11"):
+    from ..interp import Machine, Adt, PyVec, Panic, some, NONE
+    from ..builtins import deref
+    chk.rule(rid, "a Satisfier used as asset provider (the blanket impl that makes plans and direct satisfactions agree): every "
+                  "provider_lookup_* / check_* answers from the satisfier's namesake look-up for the same key / hash / leaf - "
+                  "available iff the satisfier holds it, Schnorr signature sizes are the held signature's length, raw-pkh look-ups "
+                  "pass the key on")
+    imps = [i for i in F.impls if (i["trait"] or "").endswith("AssetProvider") and (i.get("self_ty") or "") in ("T",)]
+    if len(imps) != 1:
+        chk.fail(rid, "anchor", "blanket impl AssetProvider for T: Satisfier not found (%d)" % len(imps), kind="unanalysable")
+        return
+    items = {it["name"]: it["path"] for it in imps[0]["items"]}
+    chk.saw(*items.values())
+    held = {}
+
+    def look(name):
+        def f(m_, a, c):
+            k = tuple(repr(deref(x)) for x in a[1:])
+            v = held.get((name, k))
+            if name in ("check_older", "check_after"):
+                return bool(v)
+            return some(v) if v is not None else NONE
+        return f
+    m = Machine(F, strict=True)
+    for nm in ("lookup_ecdsa_sig", "lookup_tap_key_spend_sig", "lookup_tap_leaf_script_sig", "lookup_raw_pkh_pk", "lookup_raw_pkh_ecdsa_sig",
+               "lookup_raw_pkh_tap_leaf_script_sig", "lookup_raw_pkh_x_only_pk", "lookup_sha256", "lookup_hash256", "lookup_ripemd160",
+               "lookup_hash160", "check_older", "check_after"):
+        m.hooks["Satisfier::" + nm] = look(nm)
+        m.hooks["miniscript::satisfy::Satisfier::" + nm] = look(nm)
+    for nm in ("bitcoin::ecdsa::Signature::to_vec", "bitcoin::taproot::Signature::to_vec"):
+        m.hooks[nm] = lambda m_, a, c: PyVec([0] * deref(a[0])[1])
+    SAT = Term("sat")
+    K, LEAF, PKH = "K", ("leaf", 1), Term("pkh")
+    table = [
+        ("provider_lookup_ecdsa_sig", [K], ("lookup_ecdsa_sig", (repr(K),)), ("sig", 72), True, False),
+        ("provider_lookup_tap_key_spend_sig", [K], ("lookup_tap_key_spend_sig", (repr(K),)), ("sig", 65), some(65), NONE),
+        ("provider_lookup_tap_key_spend_sig", [K], ("lookup_tap_key_spend_sig", (repr(K),)), ("sig", 64), some(64), NONE),
+        ("provider_lookup_tap_leaf_script_sig", [K, LEAF], ("lookup_tap_leaf_script_sig", (repr(K), repr(LEAF))), ("sig", 64), some(64), NONE),
+        ("provider_lookup_raw_pkh_pk", [PKH], ("lookup_raw_pkh_pk", (repr(PKH),)), Term("pk"), some(Term("pk")), NONE),
+        ("provider_lookup_raw_pkh_x_only_pk", [PKH], ("lookup_raw_pkh_x_only_pk", (repr(PKH),)), Term("xpk"), some(Term("xpk")), NONE),
+        ("provider_lookup_raw_pkh_ecdsa_sig", [PKH], ("lookup_raw_pkh_ecdsa_sig", (repr(PKH),)), (Term("pk"), ("sig", 72)), some(Term("pk")), NONE),
+        ("provider_lookup_raw_pkh_tap_leaf_script_sig", [(PKH, LEAF)], ("lookup_raw_pkh_tap_leaf_script_sig", (repr((PKH, LEAF)),)),
+         (Term("xpk"), ("sig", 65)), some((Term("xpk"), 65)), NONE),
+        ("provider_lookup_sha256", ["H"], ("lookup_sha256", (repr("H"),)), PyVec([1] * 32), True, False),
+        ("provider_lookup_hash256", ["H"], ("lookup_hash256", (repr("H"),)), PyVec([1] * 32), True, False),
+        ("provider_lookup_ripemd160", ["H"], ("lookup_ripemd160", (repr("H"),)), PyVec([1] * 32), True, False),
+        ("provider_lookup_hash160", ["H"], ("lookup_hash160", (repr("H"),)), PyVec([1] * 32), True, False),
+        ("check_older", [7], ("check_older", (repr(7),)), True, True, False),
+        ("check_after", [9], ("check_after", (repr(9),)), True, True, False),
+    ]
+    n = 0
+    for name, args, hkey, hval, want_held, want_not in table:
+        if name not in items:
+            chk.fail(rid, "anchor|" + name, "the blanket impl has no %s" % name, kind="unanalysable")
+            continue
+        for have in (True, False):
+            held.clear()
+            if have:
+                held[hkey] = hval
+            else:
+                # the satisfier holds the thing for another key / hash only
+                held[(hkey[0], tuple("other" for _ in hkey[1]))] = hval
+            n += 1
+            try:
+                r = m.call_callee({"def": items[name], "resolved": items[name], "name": name, "targs": ["SAT", "PK"]}, [SAT] + list(args))
+                want = want_held if have else want_not
+                chk.obligation(rid, repr(deref(r)) == repr(want), "%s|%s" % (name, "held" if have else "not-held"),
+                               "%s gives %r when the satisfier %s it, expected %r" % (name, r, "holds" if have else "does not hold", want),
+                               where="src/plan.rs")
+            except Unsupported as e:
+                chk.fail(rid, "unanalysable:" + name, "unanalysable: %s" % e, where=e.where, kind="unanalysable")
+            except Panic as e:
+                chk.fail(rid, name, "panic: %s" % e, where="src/plan.rs")
+    chk.floor(rid, "look-up cases", n, 26)
+
+
 def run(chk):
     F = chk.facts()
     chk.explanation = (
@@ -368,3 +592,5 @@ def run(chk):
               "necessary and sufficient for its witness in the reference execution - the spend validates with it, fails with "
               "one less and with the other unit, and a template that reports no lock needs none")
     chk.guard("R17.9", "placeholder-completion", check_placeholder_completion, chk, F)
+    chk.guard("R17.10", "assets-provider", check_assets_provider, chk, F)
+    chk.guard("R17.11", "satisfier-as-provider", check_satisfier_as_provider, chk, F)
